@@ -39,6 +39,8 @@ def make_kernel(name, d, bs=()):
         return K.MultitaskKernel(K.RBFKernel(), num_tasks=2, rank=1), 2
     if name == "multitask_linear":  # a data kernel whose diagonal is not constant
         return K.MultitaskKernel(K.LinearKernel() + K.ConstantKernel(), num_tasks=2, rank=1), 2
+    if name == "lcm":
+        return K.LCMKernel([K.RBFKernel(), K.MaternKernel(nu=1.5)], num_tasks=2, rank=1), 2
     if name == "rbf_grad":
         return K.RBFKernelGrad(), 1 + d
     if name == "poly":
@@ -216,6 +218,29 @@ def diag_param_batch(S, kernel, b, n, d):
         S.prove_eq(lz.diagonal(dim1=-1, dim2=-2), want, "lazy .diagonal() (kernel batch %d, n %d)" % (b, n))
 
 
+def expand_batch(S, kernel):
+    """kernel.expand_batch(b): every batch element of the expanded kernel = the original kernel; indexing the expanded kernel (and
+       its lazily evaluated matrix) gives the original back - for composite kernels kept in containers too"""
+    k, outs = make_kernel(kernel, 2)
+    for p in k.parameters():
+        p.requires_grad_(False)
+    declare_params(S, k, "p_", scale=0.4)
+    x1 = S.randn(2, 2, scale=0.7); S.sym_tensor(x1, "x")
+    x2 = S.randn(3, 2, scale=0.7); S.sym_tensor(x2, "z")
+    with S.mode():
+        base = as_sym_arr(SH.get(dense(k(x1, x2)))).copy()
+        ke = S.must_not_raise("%s.expand_batch([3, 2])" % kernel, lambda: k.expand_batch(torch.Size([3, 2])))
+        S.check_concrete(tuple(ke.batch_shape) == (3, 2) and tuple(k.batch_shape) == (), "expanded kernel has batch shape (3, 2), the original none",
+                         "%s / %s" % (tuple(ke.batch_shape), tuple(k.batch_shape)))
+        out = S.must_not_raise("evaluation of the expanded %s kernel" % kernel, lambda: dense(ke(x1, x2)))
+        S.check_concrete(tuple(out.shape) == (3, 2) + base.shape, "expanded kernel output shape", str(tuple(out.shape)))
+        for b in ((0, 0), (2, 1)):
+            S.prove_eq(out[b], base, "expanded kernel element %s = original" % (list(b),))
+        S.prove_eq(S.must_not_raise("expanded kernel [1]", lambda: dense(ke[1](x1, x2)))[0], base, "expanded kernel[1] element 0 = original")
+        S.prove_eq(S.must_not_raise("expanded kernel [2, 1]", lambda: dense(ke[2, 1](x1, x2))), base, "expanded kernel[2, 1] = original")
+        S.prove_eq(S.must_not_raise("lazy matrix of the expanded kernel [1, 0]", lambda: dense(ke(x1, x2)[1, 0])), base, "lazy matrix of the expanded kernel [1, 0] = original")
+
+
 def active_dims(S, kernel, batch):
     """active_dims restricts a kernel to exactly those input columns (also batched, kernel[i], expand_batch)"""
     bs = (batch,) if batch else ()
@@ -269,6 +294,8 @@ def scenarios(tier, seed):
     for kern in ("rbf", "scale_rq", "linear", "poly"):
         add("diag_param_batch", kernel=kern, b=3, n=3, d=2)
         add("diag_param_batch", kernel=kern, b=2, n=3, d=1)
+    for kern in ("rbf+linear", "rbf*periodic", "scale_rq", "multitask") + (("lcm", "poly", "rbf") if tier != "quick" else ()):
+        add("expand_batch", kernel=kern)
     for kern in ("rbf", "rq", "scale_rbf"):
         add("active_dims", kernel=kern, batch=0)
         add("active_dims", kernel=kern, batch=2)
